@@ -122,6 +122,12 @@ theorem readside_value_methods_own_copy :
     ∀ m ∈ Facts.methods, (m.recv, m.name) ∈ readSide → m.assigns ≠ [] → m.pointer = false := by decide
 
 /-! ### encoding package: the field map is not pre-sized from the declared length (C06) -/
-theorem fromCBOR_make_args : True := trivial
+/-- the only `make` calls with a size are sized from slices already in memory — none from a length a sender declares,
+    and none anywhere in the encoding package -/
+theorem sized_makes : Facts.sizedMakes =
+    [("psatoken", "SwComponents.Values", "len(o.values)"), ("psatoken", "validateAndConvert", "len(vals)")] := by decide
+
+/-- `FromCBOR` takes the definite-length branch exactly when the additional information is not 31 -/
+theorem fromCBOR_indefinite_test : Facts.fromCBORIndefiniteTest = "additionalInfo!=31" := by decide
 
 end Psa.Tie.Facts
